@@ -184,6 +184,10 @@ def join_component_view(component, view):
     """
     if view is None:
         return component
+    if isinstance(view, np.ndarray):
+        # a single (boolean or integer) index array is one index, not a
+        # sequence of per-axis indices
+        return (component, view)
     result = [component]
     try:
         result.extend(view)
